@@ -5,7 +5,7 @@ import copy, math
 import numpy as np, pandas as pd
 import pandapower as pp
 
-NAN = float("nan")
+NAN = np.nan
 
 
 # ------------------------------------------------------------------ value domains (short dyadic grids)
@@ -61,71 +61,81 @@ T3_REQ = ["sn_hv_mva", "sn_mv_mva", "sn_lv_mva", "vn_hv_kv", "vn_mv_kv", "vn_lv_
           "vk_lv_percent", "vkr_hv_percent", "vkr_mv_percent", "vkr_lv_percent", "pfe_kw", "i0_percent"]
 
 
+GROUPS = [("r0_ohm_per_km", "x0_ohm_per_km", "c0_nf_per_km")]
+ALWAYS = {"shift_degree", "shift_mv_degree", "shift_lv_degree"}      # required by create_std_type
+
+
 def rand_std(rng, full, req):
     """a std type: all required parameters, a random subset of the optional ones, distinctive values"""
     d = {}
     mode = rng.random()
+    keep = {}
+    for k in full:
+        keep[k] = k in req or k in ALWAYS or mode < 0.4 or (mode < 0.8 and rng.random() < 0.6)
+    for g in GROUPS:
+        for k in g:
+            if k in keep:
+                keep[k] = keep[g[0]]
     for k, v in full.items():
-        if k in req or mode < 0.4 or (mode < 0.8 and rng.random() < 0.6):
+        if keep[k]:
             if isinstance(v, str):
                 d[k] = v
             elif isinstance(v, int) and not isinstance(v, bool):
                 d[k] = v + rng.choice([0, 0, 1])
             else:
                 d[k] = v * rng.choice([1.0, 0.5, 2.0])
-    # tap limits without neutral etc. are allowed by create_std_type; keep side/neutral together
     return d
 
 
 KINDS = {
     "bus": dict(table="bus", single="create_bus", batch="create_buses", nodes=[], count_arg="nr_buses",
-                args=[A("vn_kv", g_pos, "req"), A("type", g_str(["b", "n", "m"])), A("zone", g_str(["z1", "z2"]), nanlike=None),
-                      A("in_service", g_bool), A("max_vm_pu", g_pos), A("min_vm_pu", g_pos)]),
+                args=[A("vn_kv", g_pos, "req"), A("type", g_str(["b", "n", "m"]), p_nan=0.0), A("zone", g_str(["z1", "z2"]), nanlike=None),
+                      A("in_service", g_bool, p_nan=0.0), A("max_vm_pu", g_pos), A("min_vm_pu", g_pos)]),
     "load": dict(table="load", single="create_load", batch="create_loads", nodes=[("bus", "buses", "bus")],
-                 args=[A("p_mw", g_num, "req"), A("q_mvar", g_num), A("const_z_p_percent", g_num), A("const_i_p_percent", g_num),
-                       A("const_z_q_percent", g_num), A("const_i_q_percent", g_num), A("sn_mva", g_pos), A("scaling", g_pos),
-                       A("in_service", g_bool), A("type", g_str(["wye", "delta"]))] + LIMS),
+                 args=[A("p_mw", g_num, "req"), A("q_mvar", g_num, p_nan=0.0), A("const_z_p_percent", g_num, p_nan=0.0), A("const_i_p_percent", g_num, p_nan=0.0),
+                       A("const_z_q_percent", g_num, p_nan=0.0), A("const_i_q_percent", g_num, p_nan=0.0), A("sn_mva", g_pos), A("scaling", g_pos, p_nan=0.0),
+                       A("in_service", g_bool, p_nan=0.0), A("type", g_str(["wye", "delta"]), p_nan=0.0)] + LIMS),
     "sgen": dict(table="sgen", single="create_sgen", batch="create_sgens", nodes=[("bus", "buses", "bus")],
-                 args=[A("p_mw", g_num, "req"), A("q_mvar", g_num), A("sn_mva", g_pos), A("scaling", g_pos), A("in_service", g_bool),
-                       A("type", g_str(["wye", "PV"])), A("k", g_pos), A("rx", g_pos), A("current_source", g_bool),
+                 args=[A("p_mw", g_num, "req"), A("q_mvar", g_num, p_nan=0.0), A("sn_mva", g_pos), A("scaling", g_pos, p_nan=0.0), A("in_service", g_bool, p_nan=0.0),
+                       A("type", g_str(["wye", "PV"]), p_nan=0.0), A("k", g_pos), A("rx", g_pos), A("current_source", g_bool, p_nan=0.0),
                        A("generator_type", g_str(["current_source", "async", "async_doubly_fed"]), nanlike=None),
                        A("max_ik_ka", g_pos), A("lrc_pu", g_pos)] + LIMS),
     "gen": dict(table="gen", single="create_gen", batch="create_gens", nodes=[("bus", "buses", "bus")],
-                args=[A("p_mw", g_num, "req"), A("vm_pu", g_pos), A("sn_mva", g_pos), A("scaling", g_pos), A("in_service", g_bool),
-                      A("slack", g_bool), A("slack_weight", g_pos), A("type", g_str(["sync", "async"]), nanlike=None),
+                args=[A("p_mw", g_num, "req"), A("vm_pu", g_pos, p_nan=0.0), A("sn_mva", g_pos), A("scaling", g_pos, p_nan=0.0), A("in_service", g_bool, p_nan=0.0),
+                      A("slack", g_bool, p_nan=0.0), A("slack_weight", g_pos, p_nan=0.0), A("type", g_str(["sync", "async"]), nanlike=None, p_nan=0.35),
                       A("max_vm_pu", g_pos), A("min_vm_pu", g_pos), A("vn_kv", g_pos), A("xdss_pu", g_pos), A("rdss_ohm", g_pos),
                       A("cos_phi", g_pos), A("pg_percent", g_num)] + LIMS),
     "storage": dict(table="storage", single="create_storage", batch="create_storages", nodes=[("bus", "buses", "bus")],
-                    args=[A("p_mw", g_num, "req"), A("max_e_mwh", g_pos, "req"), A("q_mvar", g_num), A("sn_mva", g_pos),
-                          A("soc_percent", g_pos), A("min_e_mwh", g_pos), A("scaling", g_pos), A("in_service", g_bool),
-                          A("type", g_str(["bat", "x"]), nanlike=None)] + LIMS),
+                    args=[A("p_mw", g_num, "req"), A("max_e_mwh", g_pos, "req"), A("q_mvar", g_num, p_nan=0.0), A("sn_mva", g_pos),
+                          A("soc_percent", g_pos), A("min_e_mwh", g_pos, p_nan=0.0), A("scaling", g_pos, p_nan=0.0), A("in_service", g_bool, p_nan=0.0),
+                          A("type", g_str(["bat", "x"]), nanlike=None, p_nan=0.35)] + LIMS),
     "shunt": dict(table="shunt", single="create_shunt", batch="create_shunts", nodes=[("bus", "buses", "bus")],
-                  args=[A("q_mvar", g_num, "req"), A("p_mw", g_num), A("vn_kv", g_pos, nanlike=None, p_nan=0.0), A("step", g_pint),
-                        A("max_step", g_pint), A("in_service", g_bool)]),
+                  args=[A("q_mvar", g_num, "req"), A("p_mw", g_num, p_nan=0.0), A("vn_kv", g_pos, nanlike=None, p_nan=0.0), A("step", g_pint, p_nan=0.0),
+                        A("max_step", g_pint, p_nan=0.0), A("in_service", g_bool, p_nan=0.0)]),
     "ward": dict(table="ward", single="create_ward", batch="create_wards", nodes=[("bus", "buses", "bus")],
                  args=[A("ps_mw", g_num, "req"), A("qs_mvar", g_num, "req"), A("pz_mw", g_num, "req"), A("qz_mvar", g_num, "req"),
-                       A("in_service", g_bool)]),
+                       A("in_service", g_bool, p_nan=0.0)]),
     "impedance": dict(table="impedance", single="create_impedance", batch="create_impedances",
                       nodes=[("from_bus", "from_buses", "bus"), ("to_bus", "to_buses", "bus")],
                       args=[A("rft_pu", g_num, "req"), A("xft_pu", g_pos, "req"), A("sn_mva", g_pos, "req"),
                             A("rtf_pu", g_num, nanlike=None, p_nan=0.0), A("xtf_pu", g_pos, nanlike=None, p_nan=0.0),
                             A("gf_pu", g_num, p_nan=0.0), A("bf_pu", g_num, p_nan=0.0), A("gt_pu", g_num, nanlike=None, p_nan=0.0),
-                            A("bt_pu", g_num, nanlike=None, p_nan=0.0), A("in_service", g_bool)]),
+                            A("bt_pu", g_num, nanlike=None, p_nan=0.0), A("in_service", g_bool, p_nan=0.0)]),
     "line": dict(table="line", single="create_line", batch="create_lines",
                  nodes=[("from_bus", "from_buses", "bus"), ("to_bus", "to_buses", "bus")], std=("line", LINE_STD, LINE_REQ),
-                 args=[A("length_km", g_pos, "req"), A("df", g_pos), A("parallel", g_pint), A("in_service", g_bool),
+                 args=[A("length_km", g_pos, "req"), A("df", g_pos, p_nan=0.0), A("parallel", g_pint, p_nan=0.0), A("in_service", g_bool, p_nan=0.0),
                        A("max_loading_percent", g_pos)]),
     "line_par": dict(table="line", single="create_line_from_parameters", batch="create_lines_from_parameters",
                      nodes=[("from_bus", "from_buses", "bus"), ("to_bus", "to_buses", "bus")],
                      args=[A("length_km", g_pos, "req"), A("r_ohm_per_km", g_pos, "req"), A("x_ohm_per_km", g_pos, "req"),
-                           A("c_nf_per_km", g_pos, "req"), A("max_i_ka", g_pos, "req"), A("type", g_str(["cs", "ol"]), nanlike=None),
-                           A("df", g_pos), A("parallel", g_pint), A("in_service", g_bool), A("g_us_per_km", g_pos, p_nan=0.0),
+                           A("c_nf_per_km", g_pos, "req"), A("max_i_ka", g_pos, "req"), A("type", g_str(["cs", "ol"]), nanlike=None, p_nan=0.35),
+                           A("df", g_pos, p_nan=0.0), A("parallel", g_pint, p_nan=0.0), A("in_service", g_bool, p_nan=0.0), A("g_us_per_km", g_pos, p_nan=0.0),
                            A("max_loading_percent", g_pos), A("alpha", g_pos), A("temperature_degree_celsius", g_pos),
                            A("r0_ohm_per_km", g_pos), A("x0_ohm_per_km", g_pos), A("c0_nf_per_km", g_pos), A("g0_us_per_km", g_pos)]),
     "trafo": dict(table="trafo", single="create_transformer", batch="create_transformers",
                   nodes=[("hv_bus", "hv_buses", "bus"), ("lv_bus", "lv_buses", "bus")], std=("trafo", TRAFO_STD, TRAFO_REQ),
-                  args=[A("tap_pos", g_int), A("in_service", g_bool), A("max_loading_percent", g_pos), A("parallel", g_pint),
-                        A("df", g_pos), A("pt_percent", g_pos), A("oltc", g_bool), A("xn_ohm", g_pos), A("tap2_pos", g_int)]),
+                  args=[A("tap_pos", g_int), A("in_service", g_bool, p_nan=0.0), A("max_loading_percent", g_pos), A("parallel", g_pint, p_nan=0.0),
+                        A("df", g_pos, p_nan=0.0), A("pt_percent", g_pos), A("oltc", g_bool, p_nan=0.0), A("xn_ohm", g_pos), A("tap2_pos", g_int)]),
     "trafo_par": dict(table="trafo", single="create_transformer_from_parameters", batch="create_transformers_from_parameters",
                       nodes=[("hv_bus", "hv_buses", "bus"), ("lv_bus", "lv_buses", "bus")],
                       args=[A(k, g_pos, "req") for k in TRAFO_REQ] +
@@ -133,24 +143,29 @@ KINDS = {
                             A("tap_neutral", g_int), A("tap_max", g_int), A("tap_min", g_int), A("tap_step_percent", g_pos),
                             A("tap_step_degree", g_pos), A("tap_pos", g_int),
                             A("tap_changer_type", g_str(["Ratio", "Symmetrical", "Ideal"]), nanlike=None),
-                            A("in_service", g_bool), A("max_loading_percent", g_pos), A("parallel", g_pint), A("df", g_pos),
+                            A("in_service", g_bool, p_nan=0.0), A("max_loading_percent", g_pos), A("parallel", g_pint, p_nan=0.0), A("df", g_pos, p_nan=0.0),
                             A("vk0_percent", g_pos), A("vkr0_percent", g_pos), A("mag0_percent", g_pos), A("mag0_rx", g_pos),
-                            A("si0_hv_partial", g_pos), A("pt_percent", g_pos), A("oltc", g_bool), A("xn_ohm", g_pos)]),
+                            A("si0_hv_partial", g_pos), A("pt_percent", g_pos), A("oltc", g_bool, p_nan=0.0), A("xn_ohm", g_pos)]),
     "trafo3w": dict(table="trafo3w", single="create_transformer3w", batch="create_transformers3w",
                     nodes=[("hv_bus", "hv_buses", "bus"), ("mv_bus", "mv_buses", "bus"), ("lv_bus", "lv_buses", "bus")],
                     std=("trafo3w", T3_STD, T3_REQ),
-                    args=[A("tap_pos", g_int), A("in_service", g_bool), A("max_loading_percent", g_pos),
-                          A("tap_at_star_point", g_bool)]),
+                    args=[A("tap_pos", g_int), A("in_service", g_bool, p_nan=0.0), A("max_loading_percent", g_pos),
+                          A("tap_at_star_point", g_bool, p_nan=0.0)]),
 }
 
 BUS_IDS = [0, 1, 2, 3, 7, 9]
 SKIP_COLS = {"name", "geo"}
 
 
+_TEMPLATE = []
+
+
 def base_net(rng):
-    net = pp.create_empty_network()
-    pp.create_buses(net, len(BUS_IDS), [110., 110., 20., 20., 10., 10.], index=BUS_IDS)
-    return net
+    if not _TEMPLATE:
+        net = pp.create_empty_network()
+        pp.create_buses(net, len(BUS_IDS), [110., 110., 20., 20., 10., 10.], index=BUS_IDS)
+        _TEMPLATE.append(net)
+    return copy.deepcopy(_TEMPLATE[0])
 
 
 def canon_cell(v):
@@ -163,7 +178,7 @@ def canon_cell(v):
         f = float(v)
         return None if math.isnan(f) else f
     if isinstance(v, str):
-        return None if v == "" else v
+        return None if v in ("", "nan", "None") else v      # astype(str) of a missing value
     return repr(v)
 
 
@@ -198,7 +213,7 @@ def gen_case(rng, kind, n=None):
         args[a["name"]] = vals
     case["args"] = args
     # nodes
-    bad_node = rng.random() < 0.08
+    bad_node = rng.random() < 0.06
     nodes = {}
     for sname, bname, tab in K["nodes"]:
         nodes[sname] = [rng.choice(BUS_IDS) for _ in range(n)]
@@ -217,9 +232,9 @@ def gen_case(rng, kind, n=None):
     if r < 0.5:
         case["index"] = None
     else:
-        pool = [0, 1, 2, 3, 4, 5, 6, 8, 12]
+        pool = [0, 1, 3, 4, 6, 8, 12, 13] if r < 0.9 else [0, 1, 2, 3, 4, 5, 6]     # pre-existing ids: 5, 2 or 0, 1
         idx = rng.sample(pool, n)
-        if r > 0.85 and n > 1:
+        if r > 0.93 and n > 1:
             idx[-1] = idx[0]                      # duplicate inside the vector
         case["index"] = idx
     return case
@@ -261,11 +276,11 @@ def build_base(case, rng_unused=None):
     return net
 
 
-def run_both(case):
+def run_both(case, base=None):
     """-> dict(single=(rejected, exc_class, idx, cols), batch=(...), base info)"""
     K = KINDS[case["kind"]]
     n = case["n"]
-    base = build_base(case)
+    base = build_base(case) if base is None else base
     before = len(base[K["table"]])
     info = {"cols_before": [c for c in base[K["table"]].columns], "idx_before": [int(i) for i in base[K["table"]].index],
             "storage_idx": [int(i) for i in base.storage.index]}
